@@ -17,7 +17,7 @@ ENV = dict(os.environ, GOFLAGS="-mod=mod", GOPROXY="off", GOSUMDB="off", GOTOOLC
 
 
 def sh(cmd, cwd=None, env=ENV, timeout=1800):
-    p = subprocess.run(cmd, shell=True, cwd=cwd, env=env, text=True, stdout=subprocess.PIPE, stderr=subprocess.STDOUT, timeout=timeout)
+    p = subprocess.run(cmd, shell=True, cwd=cwd, env=env, text=True, errors="replace", stdout=subprocess.PIPE, stderr=subprocess.STDOUT, timeout=timeout)
     return p.returncode, p.stdout
 
 
@@ -99,7 +99,7 @@ def main():
         for p in props:
             t0 = time.time()
             r = subprocess.run([os.path.join(VERIF, "run"), p, "--tier", tier], env=dict(os.environ, VERIF_REPLAY_DIR="/tmp/seedreplays", VERIF_EVIDENCE_DIR="/tmp/seedevidence", VERIF_REPO=target),
-                               text=True, stdout=subprocess.PIPE, stderr=subprocess.PIPE)
+                               text=True, errors="replace", stdout=subprocess.PIPE, stderr=subprocess.PIPE)
             verdict = {0: "missed", 1: "caught", 2: "inconclusive"}.get(r.returncode, str(r.returncode))
             first = ""
             lines = r.stderr.splitlines()
